@@ -782,6 +782,89 @@ fn c01_residual_assembly_two_partitions() {
     kani::cover!(c);
 }
 
+// ======================================================================== C13: the callers hand the Rice search its documented search space
+static mut PRC_CALLS: usize = 0;
+static mut PRC_MAX_P: [usize; 4] = [usize::MAX; 4];
+static mut PRC_WARMUP: [usize; 4] = [usize::MAX; 4];
+static mut PRC_LEN: [usize; 4] = [usize::MAX; 4];
+/// Stand-in for `rice::find_partitioned_rice_parameter` that records its arguments (the search
+/// itself is decided by the C13 lemma chain in rice.rs) and returns a one-partition answer.
+fn prc_search_recording_stub(errors: &[i32], warmup_length: usize, max_p: usize) -> rice::PrcParameter {
+    unsafe {
+        let k = PRC_CALLS;
+        if k < 4 {
+            PRC_MAX_P[k] = max_p;
+            PRC_WARMUP[k] = warmup_length;
+            PRC_LEN[k] = errors.len();
+        }
+        PRC_CALLS = k + 1;
+    }
+    let mut ps = Vec::with_capacity(1);
+    ps.push(0u8);
+    // a concrete cost: which candidate wins is irrelevant to the claim, and a symbolic winner
+    // makes the containers handed to the residual assembly symbolic (no answer in 500 s)
+    rice::PrcParameter::new(0, ps, 100)
+}
+
+//@ prop: C13
+//@ also: C07
+//@ drives: coding::encode_residual (call site of rice::find_partitioned_rice_parameter used by the LPC path and by estimate-based order selection)
+//@ bound: a 4-sample error vector (content irrelevant: zeros), every configured maximum Rice parameter 0..=14, warm-up 0..=2
+//@ asserts: the Rice search receives the whole error vector, the warm-up and EXACTLY the configured maximum parameter - so the search space of the lemma chain (parameters 0..=the configured maximum) is the one the encoder searches
+//@ stubs: rice::find_partitioned_rice_parameter -> records its arguments, returns one partition with parameter 0 and cost 100
+#[kani::proof]
+#[kani::unwind(70)]
+#[kani::stub(crate::rice::find_partitioned_rice_parameter, prc_search_recording_stub)]
+fn c13_l0_encode_residual_passes_configured_maximum() {
+    let mut cfg = config::Prc::default();
+    let max_p: usize = kani::any();
+    kani::assume(max_p <= 14);
+    cfg.max_parameter = max_p;
+    let e0 = [0i32; 4];
+    let warm: usize = kani::any();
+    kani::assume(warm <= 2);
+    let r = encode_residual(&cfg, &e0, warm);
+    std::mem::forget(r);
+    unsafe {
+        assert!(PRC_CALLS == 1);
+        assert!(PRC_MAX_P[0] == max_p && PRC_WARMUP[0] == warm && PRC_LEN[0] == 4);
+    }
+    kani::cover!(max_p == 14 && warm == 2);
+}
+
+//@ prop: C13
+//@ also: C07
+//@ drives: coding::select_order_and_encode_residual (OrderSel::BitCount branch: one Rice search per candidate predictor order)
+//@ bound: two candidate orders (0 and 1) with 4-sample error vectors (zeros), every configured maximum Rice parameter 0..=14, every sample width 4..=32, baseline 0 (the candidates are searched but none is assembled)
+//@ asserts: each of the two searches receives the whole error vector, the candidate's order as warm-up and EXACTLY the configured maximum parameter, whatever the sample width
+//@ stubs: as c13_l0_encode_residual_passes_configured_maximum
+#[kani::proof]
+#[kani::unwind(70)]
+#[kani::stub(crate::rice::find_partitioned_rice_parameter, prc_search_recording_stub)]
+fn c13_l0_order_selection_passes_configured_maximum() {
+    let mut cfg = config::Prc::default();
+    let max_p: usize = kani::any();
+    kani::assume(max_p <= 14);
+    cfg.max_parameter = max_p;
+    let e0 = [0i32; 4];
+    let e1 = [0i32; 4];
+    let bps: usize = kani::any();
+    kani::assume(bps >= 4 && bps <= 32);
+    let cands = [(0usize, &e0[..]), (1usize, &e1[..])];
+    // baseline 0: the winner is searched (both Rice searches run) but not assembled - the
+    // assembly is c01_residual_assembly_*; with it this harness does not finish in 500 s
+    let r = select_order_and_encode_residual(&config::OrderSel::BitCount, &cfg, cands.into_iter(), bps, 0);
+    let none = r.is_none();
+    std::mem::forget(r);
+    assert!(none);
+    unsafe {
+        assert!(PRC_CALLS == 2);
+        assert!(PRC_MAX_P[0] == max_p && PRC_WARMUP[0] == 0 && PRC_LEN[0] == 4);
+        assert!(PRC_MAX_P[1] == max_p && PRC_WARMUP[1] == 1 && PRC_LEN[1] == 4);
+    }
+    kani::cover!(max_p == 14 && bps == 8);
+}
+
 // ======================================================================== C07: consumers of accepted boundary values
 fn sum_abs_stub<const N: usize>(data: &[i32]) -> f32
 where
@@ -791,6 +874,17 @@ where
     let _n = data.len();
     let v: f32 = kani::any();
     kani::assume(v >= 0.0 && v <= 1.0e12);
+    v
+}
+
+fn log2_stub(_x: f32) -> f32 {
+    kani::any()
+}
+fn mul_add_stub(_x: f32, _a: f32, _b: f32) -> f32 {
+    // the per-sample cross entropy e*log2(1+1/e) + log2(1+e): for the reachable averages
+    // (0 <= e < 2^50) it lies in [0, 52]; NaN (e = 0) casts to 0 bits like the value 0.0
+    let v: f32 = kani::any();
+    kani::assume(v >= -64.0 && v <= 128.0);
     v
 }
 
@@ -808,10 +902,12 @@ fn entropy_index_case<const N: usize>() -> bool {
 //@ drives: coding::estimate_entropy (the consumer of `fixed.order_sel = ApproxEnt { partitions }`): partition sizing, the per-partition slice bounds and the warm-up handling
 //@ bound: every accepted partition count 1..=64 and every fixed-predictor order 0..=4 as warm-up, for an error vector of 9 samples (the index arithmetic does not depend on the block being >= 64 samples: with 9 samples partitions are shorter than the warm-up from 3 partitions on and the trailing partitions are empty from 10 on - the situations a 64..192-sample block meets with 22..64 partitions)
 //@ asserts: no panic (index out of range, subtraction overflow, division by zero) for any accepted configuration value - the second half of C07 for this field
-//@ stubs: arrayutils::find_sum_abs_f32 -> any finite non-negative f32 (the float value of the estimate is irrelevant to the property; the float analysis is outside every claim, DESIGN 4.3)
+//@ stubs: arrayutils::find_sum_abs_f32 -> any finite non-negative f32; f32::log2 -> any f32; f32::mul_add (the per-sample cross entropy) -> any value in [-64, 128], a superset of its mathematical range [0, 52] (the float value of the estimate is irrelevant to the property; CBMC does not finish on log2/mul_add: 500 s without the stubs, 4 min with them; the float analysis is outside every claim, DESIGN 4.3)
 #[kani::proof]
 #[kani::unwind(67)]
 #[kani::stub(crate::arrayutils::find_sum_abs_f32, sum_abs_stub)]
+#[kani::stub(f32::log2, log2_stub)]
+#[kani::stub(f32::mul_add, mul_add_stub)]
 fn c07_estimate_entropy_accepted_partitions_never_panic() {
     let c = entropy_index_case::<9>();
     kani::cover!(c);
